@@ -279,6 +279,7 @@ func runOne(g *rig, w *world, p *parsedOp, stable func(string) bool, side string
 		return out, &failure{kind: "shape", side: side, msg: fmt.Sprintf("malformed response: %v\n %s = %s\n response = %s", err, side, p.text, clip(res.Body))}
 	}
 	out.resp = resp
+	var failures []string
 	for _, e := range resp.Errors {
 		m, _ := e.(map[string]any)
 		msg, _ := m["message"].(string)
@@ -296,9 +297,11 @@ func runOne(g *rig, w *world, p *parsedOp, stable func(string) bool, side string
 			}
 		}
 		if isGRPC {
-			out.fetchFailure = inner
+			failures = append(failures, inner)
 		}
 	}
+	sort.Strings(failures)
+	out.fetchFailure = strings.Join(failures, " ; ")
 	// The mock's LookupWarehouseById deliberately returns one entity too few; the datasource
 	// rightly refuses that answer.
 	if out.fetchFailure != "" && len(res.RPCErrors) == 0 && !strings.Contains(out.fetchFailure, "entities in the subgraph response, but") {
@@ -363,7 +366,8 @@ func checkOpCase(c opCase, o *pbt.Rec) pbt.Verdict {
 	for _, k := range c.Excluded {
 		o.Label("excluded:" + k)
 	}
-	if samePaths(fieldPaths(pa), fieldPaths(pb)) {
+	sameFields := samePaths(fieldPaths(pa), fieldPaths(pb))
+	if sameFields {
 		o.Label("fieldset:same")
 	} else {
 		o.Label("fieldset:differs")
@@ -383,9 +387,13 @@ func checkOpCase(c opCase, o *pbt.Rec) pbt.Verdict {
 	}
 
 	// (2) consistency
-	ms, explained := compare(a.walk, b.walk, a.resp, b.resp)
-	if explained > 0 {
+	cmp := comparison{a: a, b: b, sameFields: sameFields}
+	ms := cmp.run()
+	if cmp.explained > 0 {
 		o.Label("consistency:null-explained-by-extra-selection")
+	}
+	if cmp.serviceFailure > 0 {
+		o.Label("consistency:null-explained-by-service-failure")
 	}
 	if len(ms) == 0 {
 		if a.walk.nVals > 1 && b.walk.nVals > 1 {
@@ -404,7 +412,7 @@ func checkOpCase(c opCase, o *pbt.Rec) pbt.Verdict {
 			return pbt.OK
 		}
 		found := false
-		ms2, _ := compare(a2.walk, b2.walk, a2.resp, b2.resp)
+		ms2 := (&comparison{a: a2, b: b2, sameFields: sameFields}).run()
 		for _, m := range ms2 {
 			if m.sig() == ms[0].sig() {
 				found = true
